@@ -194,6 +194,22 @@ func genScenario(rng *Rng, kind string) *Scenario {
 	case "cmdrace":
 		s.cmdMidFlight = true
 		s.retries = 2
+	case "tracefault":
+		// every phase traces (buffered and immediate); one status write of some task fails
+		for _, t := range s.tasks {
+			for _, ph := range []string{"before", "run", "after"} {
+				l := s.scripts[t.id+"/"+ph]
+				for a := range l {
+					l[a].ops = append(l[a].ops, actOp{kind: 3, v: fmt.Sprintf("%s.%s.%d.buf", t.id, ph, a)})
+					if rng.Chance(1, 3) {
+						l[a].ops = append(l[a].ops, actOp{kind: 2, v: fmt.Sprintf("%s.%s.%d.now", t.id, ph, a)})
+					}
+				}
+			}
+		}
+		s.faultNth = 1 + rng.Intn(8)
+		s.faultMatch = "PatchTaskIns"
+		s.faultMode = "fail"
 	case "leftbehind":
 		s.leftBehind = true
 	case "wdrace":
